@@ -10,6 +10,11 @@ pid = sys.argv[1]
 checks = sys.argv[2].split(',') if len(sys.argv) > 2 else [pid]
 wt = f"/tmp/wt-{pid}"
 FEATS = "charsets,json,form,multipart-form,basic-auth"
+# evaluation target: /repo + /verif (what the brief prescribes), or a scratch copy of both (EVAL=scratch) so that
+# evaluations can run while other checks are using /repo; scratch results are confirmed on /repo afterwards
+SCRATCH = os.environ.get("EVAL") == "scratch"
+EREPO = "/tmp/eval/repo" if SCRATCH else "/repo"
+EVERIF = "/tmp/eval/verif" if SCRATCH else "/verif"
 def run(cmd, cwd, timeout=1800):
     r = subprocess.run(cmd, cwd=cwd, shell=True, capture_output=True, text=True, timeout=timeout)
     return r.returncode, r.stdout + r.stderr
@@ -58,23 +63,23 @@ for mdir in sorted(glob.glob(f"{wt}/seeded/m*")):
     # evaluate against the checks
     results = {}
     if confirmed:
-        assert subprocess.run("git -C /repo diff --quiet", shell=True).returncode == 0, "/repo not clean"
-        subprocess.run(f"git -C /repo apply {mdir}/patch.diff", shell=True, check=True)
+        assert subprocess.run(f"git -C {EREPO} diff --quiet", shell=True).returncode == 0, f"{EREPO} not clean"
+        subprocess.run(f"git -C {EREPO} apply {mdir}/patch.diff", shell=True, check=True)
         try:
             for c in checks:
-                r = subprocess.run(["/verif/check", c, "quick"], capture_output=True, text=True, cwd="/verif")
+                r = subprocess.run([f"{EVERIF}/check", c, "quick"], capture_output=True, text=True, cwd=EVERIF)
                 sigs = [l.strip() for l in r.stdout.splitlines() if l.strip().startswith("signature=")]
                 results[c] = {"exit": r.returncode, "signatures": sigs[:4]}
                 print(f"  check {c}: exit {r.returncode} {sigs[:2]}")
         finally:
-            subprocess.run("git -C /repo checkout -- .", shell=True, check=True)
-            subprocess.run("rm -f /verif/replays/*.json", shell=True)
+            subprocess.run(f"git -C {EREPO} checkout -- .", shell=True, check=True)
+            subprocess.run(f"rm -f {EVERIF}/replays/*.json {EVERIF}/replays/*fuzz*", shell=True)
     dest = f"/verif/seeded/{name}"
     os.makedirs(dest, exist_ok=True)
     for fn in os.listdir(mdir):
         if fn in ("patch.diff", "demo.rs", "demo.sh", "README.txt"): shutil.copy(f"{mdir}/{fn}", dest)
     meta.update({"property": pid, "confirmed_by_us": conf, "confirmed": confirmed,
                  "what_we_ran": "scratch worktree: git apply, cargo build (default + all features), cargo test --workspace --no-fail-fast --offline, demo as tests/seeded_demo.rs with and without the change; then /repo: git apply, ./check <id> quick, git checkout",
-                 "check_results_quick": results,
+                 "check_results_quick": results, "evaluated_on": EREPO,
                  "caught_by": [c for c, v in results.items() if v["exit"] == 1]})
     json.dump(meta, open(f"{dest}/meta.json", "w"), indent=1)
